@@ -378,6 +378,11 @@ func (tr *fnTrans) wf(t Term, alloc string) string {
 	case t.T.Name == "Slice":
 		return app("wfslice", t.S, alloc)
 	case t.T.Name == "Int" && t.T.Elem != nil:
+		if tr.v.typedSorts[t.T.Elem.Name] {
+			tn := "T_" + t.T.Elem.Tag()
+			tr.touchHeap(tn, SBool, false)
+			return and(app("<=", "0", t.S), app("<", t.S, alloc), or(app("=", t.S, "0"), sel(tr.curHeap(tn), t.S)))
+		}
 		return and(app("<=", "0", t.S), app("<", t.S, alloc))
 	}
 	return "true"
@@ -789,7 +794,16 @@ func (tr *fnTrans) findLoops() {
 	for _, li := range tr.loops {
 		hs = append(hs, li)
 	}
-	sort.Slice(hs, func(i, j int) bool { return loopPos(hs[i]) < loopPos(hs[j]) })
+	sort.Slice(hs, func(i, j int) bool {
+		pi, pj := loopPos(hs[i]), loopPos(hs[j])
+		if pi != pj {
+			return pi < pj
+		}
+		if len(hs[i].blocks) != len(hs[j].blocks) {
+			return len(hs[i].blocks) > len(hs[j].blocks) // an enclosing loop comes before the loops it contains
+		}
+		return hs[i].header.Index < hs[j].header.Index
+	})
 	for i, li := range hs {
 		li.ord = i
 		li.spec = tr.c.Loops[i]
